@@ -609,6 +609,12 @@ func floatAffines() []universe.Affine {
 	for _, sc := range []float64{1e-100, 1e100} {
 		out = append(out, universe.Affine{A: sc * co, B: -sc * si, C: sc * si, D: sc * co, Name: fmt.Sprintf("rot0.3·%g", sc)})
 	}
+	// features much smaller than their distance from the origin, yet inside the property's clearance
+	// clause (feature size / magnitude = 1e-3 and 3e-5): formulas that multiply absolute
+	// coordinates before cancelling lose (magnitude/size)² × eps of accuracy here
+	for _, sc := range []float64{1e3, 30} {
+		out = append(out, universe.Affine{A: sc * co, B: -sc * si, C: sc * si, D: sc * co, TX: 1e6, TY: 6e6, Name: fmt.Sprintf("rot0.3·%g+(1e6,6e6)", sc)})
+	}
 	return out
 }
 
